@@ -80,13 +80,20 @@ structure Acc where
   bbs : List (Name × BBox) := []
 deriving Inhabited
 
+/-- edges form a set: in a parity gate an operand given an even number of times cancels (fix K30) -/
+def parityFanin (tie0 : Name) (ty : String) (fi : List Name) : List Name :=
+  if (ty == "xor" || ty == "xnor") && (dedup fi).length < fi.length then
+    let r := (dedup fi).filter (fun p => fi.count p % 2 == 1)
+    if r.isEmpty then [tie0] else r
+  else fi
+
 /-- the bookkeeping for one instance statement -/
 def doInst (bbs : List BBox) (ord : Ord) (tie0 tie1 : Name) (a : Acc) : FInst → E Acc
   | .inst gate inst nets0 pins =>
     if T.primitive.contains gate then
       match nets0.map (constName tie0 tie1) with
       | [] => .error .indexError
-      | o :: ins => pure { a with nets := pushNet a.nets gate [o], edges := a.edges ++ ins.map (fun i => (i, o)) }
+      | o :: ins => pure { a with nets := pushNet a.nets gate [o], edges := a.edges ++ (parityFanin tie0 gate ins).map (fun i => (i, o)) }
     else
       match bbs.find? (fun b => b.name == gate) with
       | none => .error .valueError
